@@ -431,6 +431,38 @@ func genC06base(t *rapid.T) C06Case {
 		}
 		return C06Case{A: val.JSON(a), B: val.JSON(b), Wrap: wrap}
 	default: // one container element changed inside
+		if gen.Chance(t, "longInLong", 4) {
+			// a long array inside a long array: scalars on both sides of
+			// the one element that changes, the change itself deep inside
+			// another long array
+			nOuter := gen.Int(t, "nOuter", 60, 180)
+			nInner := gen.Int(t, "nInner", 60, 180)
+			outer := make([]val.V, nOuter)
+			outerMod := gen.Int(t, "outerMod", 1, 7)
+			for i := range outer {
+				outer[i] = float64(i % outerMod)
+			}
+			inner := make([]val.V, nInner)
+			for i := range inner {
+				inner[i] = float64(i % 5)
+			}
+			inner2 := val.Clone(inner).([]val.V)
+			inner2[gen.Int(t, "innerAt", 0, nInner-1)] = "changed"
+			if gen.Chance(t, "innerGrows", 40) {
+				inner2 = append(inner2, "more")
+			}
+			var e1, e2 val.V = inner, inner2
+			switch gen.Int(t, "holder", 0, 2) {
+			case 1:
+				e1, e2 = map[string]val.V{"l": inner, "z": 1.0}, map[string]val.V{"l": inner2, "z": 1.0}
+			case 2:
+				e1, e2 = []val.V{"h", map[string]val.V{"l": inner}}, []val.V{"h", map[string]val.V{"l": inner2}}
+			}
+			k := gen.Int(t, "focusAt", 0, nOuter)
+			a2 := append(append(append([]val.V{}, outer[:k]...), e1), outer[k:]...)
+			b2 := append(append(append([]val.V{}, outer[:k]...), e2), outer[k:]...)
+			return C06Case{A: val.JSON(a2), B: val.JSON(b2), Wrap: wrap, Focus: &k}
+		}
 		p := gen.Profile{MaxDepth: 2, MaxArr: 6}
 		a := gen.Array(t, p, 0).([]val.V)
 		k := gen.Int(t, "focusAt", 0, len(a))
